@@ -12,6 +12,14 @@ def config_variants(table_names, thorough):
     out = []
     for base in tv.CONFIGS:
         out.append(dict(base))
+        # tiny row estimates change which physical alternative is cheapest (e.g. hash vs sort aggregation): "under any
+        # table statistics" -- every table estimated at 0 rows and at 2 rows (disk configuration; both in thorough)
+        if base['name'] == 'disk' or thorough:
+            for tiny in (0, 2):
+                c = dict(base)
+                c['name'] = '%s+rows%d' % (base['name'], tiny)
+                c['stats'] = {t: tiny for t in table_names}
+                out.append(c)
         if len(table_names) >= 2:
             for i in ([0, 1] if thorough else [0]):
                 st = {t: (100000 if j == i else 10) for j, t in enumerate(table_names)}
